@@ -158,6 +158,7 @@ func c04(c *Ctx) {
 	o.Plan.Stats["reads_writes_instances"] = len(ioRows)
 	zeroExtendSweep(c)
 	heldRegisterLists(c)
+	declaredActionsCheck(c, "actions", true) // implicit operands of built instances against the table as dumped at the start, each after refused requests for its opcode
 	c04hw(c, d, ctors, names, opcIndexOf)
 	o.Stage(files...)
 	o.Plan.Rule = "all rows of the form table (x86/zoptab.go dumped through the verif overlay), exhaustively; a sample of rows is written out as cases"
